@@ -73,11 +73,27 @@ func CheckFullNode(ctx context.Context, f *world.FN, prevHeight uint64, final bo
 	}
 	// execution log: 1,2,3,... with the proposer's txs and roots
 	next := p.Spec.Initial
-	for _, c := range f.Exec.Execs() {
+	lastExec := map[uint64]int{} // height -> index of its latest successful execution call
+	for ci, c := range f.Exec.Execs() {
 		if c.Err != "" {
 			continue
 		}
 		hit("exec-order")
+		if prev, again := lastExec[c.Height]; again {
+			// a block may be executed again only by a new process (a restart lies between the two executions)
+			restarted := false
+			for _, m := range f.ExecMarks {
+				if prev < m && m <= ci {
+					restarted = true
+				}
+			}
+			hit("exec-once-per-process")
+			if !restarted {
+				add("exec-order", c.Height, "block %d was executed twice by the same process (calls %d and %d): blocks are not applied strictly in height order", c.Height, prev, ci)
+				break
+			}
+		}
+		lastExec[c.Height] = ci
 		if c.Height > next {
 			add("exec-order", c.Height, "ExecuteTxs for height %d while %d was expected next", c.Height, next)
 			break
@@ -96,7 +112,6 @@ func CheckFullNode(ctx context.Context, f *world.FN, prevHeight uint64, final bo
 		if c.Height == next {
 			next++
 		}
-		// c.Height < next: a repeat — legitimate only directly after a restart; checked by the driver through restart markers
 	}
 	if final {
 		hit("converged")
